@@ -7,7 +7,8 @@ from framework import REPO, ROOT
 TIE = ["Nsq.Tie.AdminGate", "Nsq.Tie.AdminFanout", "Nsq.Tie.AdminProg", "Nsq.Tie.AdminNotify"]
 PROPS = ["Nsq.Props.C17"]
 STREAMS = [("gate_identity", "^TestVerifE7Identity$"), ("gate_fanout", "^TestVerifE7Fanout$"),
-           ("gate_config", "^TestVerifE7Config$"), ("gate_prog", "^TestVerifE7Prog$"), ("gate_strfn", "^TestVerifE7StrFns$")]
+           ("gate_config", "^TestVerifE7Config$"), ("gate_prog", "^TestVerifE7Prog$"), ("gate_strfn", "^TestVerifE7StrFns$"),
+           ("gate_proxy", "^TestVerifE7Proxy$")]
 
 
 def unhex(s):
@@ -129,12 +130,40 @@ def strfn_oracle(op, impl):
     return None
 
 
+def proxy_oracle(op, impl):
+    """GET /render (only with --proxy-graphite): a read-only pass-through to graphite — available to everybody, GET
+    only, never a request to an nsqd / nsqlookupd, the query handed on unchanged."""
+    f = dict(t.partition("=")[::2] for t in op.split()[1:])
+    a = impl.split()
+    status, fw, nsq = int(a[0]), a[1], a[3]
+    where = "%s /render?%s (proxy-graphite %s, identity %s)" % (f["m"], unhex(f["q"]), "on" if f["on"] == "1" else "off", f["who"])
+    if nsq != "nsq=0":
+        return where + " caused %s request(s) to nsqd / nsqlookupd" % nsq[4:]
+    if f["on"] != "1" or f["m"] != "GET":
+        if fw != "-":
+            return where + " was forwarded to graphite: " + fw
+        if status < 400:
+            return where + " answered %d" % status
+        return None
+    if status == 403:
+        return where + " answered 403: a read-only route"
+    if f["g"] != "down":
+        want = "GET:/render" + ("?" + unhex(f["q"]) if unhex(f["q"]) else "")
+        if fw != want:
+            return where + ": graphite received %s, not %s" % (fw, want)
+        if status != int(f["g"]):
+            return where + ": graphite answered %s, nsqadmin answered %d" % (f["g"], status)
+    return None
+
+
 def property_fails_on(op, impl):
     """Evaluate C17 on one request and the implementation's own answer. Returns text or None."""
     if op.startswith("fan "):
         return prog_oracle(op, impl)
     if op.startswith("strfn "):
         return strfn_oracle(op, impl)
+    if op.startswith("proxy "):
+        return proxy_oracle(op, impl)
     f = parse_op(op)
     a = impl.split()
     if len(a) != 4:
@@ -496,7 +525,7 @@ def run(ctx):
                 ctx.log("corpus regression: `%s`\n  recorded=%s\n     model=%s" % (o[:300], want, got))
                 corr_broken.append("corpus C17/%s line" % os.path.basename(cp))
         ctx.corr["corpus_lines"] = ctx.corr.get("corpus_lines", 0) + len(cops)
-    binp = ctx.go_test_binary("nsqadmin", ["e7/gate_test.go", "e7/prog_test.go", "e7/strfn_test.go"], "e7gate")
+    binp = ctx.go_test_binary("nsqadmin", ["e7/gate_test.go", "e7/prog_test.go", "e7/strfn_test.go", "e7/proxy_test.go"], "e7gate")
     if not binp:
         ctx.broken_ties.append("harness e7/gate_test.go does not compile against the current tree")
         corr_broken.append("harness build")
@@ -600,6 +629,8 @@ def key_of(op, bad=""):
         return "fanout:" + dict(t.partition("=")[::2] for t in op.split()[1:]).get("kind", "?")
     if op.startswith("strfn "):
         return "strfn:" + op.split()[1]
+    if op.startswith("proxy "):
+        return "proxy:" + op.split()[2]
     f = parse_op(op)
     return "gate:%s:/%s" % (f["m"], "/".join(pattern_of(f["segs"])))
 
@@ -607,6 +638,8 @@ def key_of(op, bad=""):
 def describe_op(op):
     if op.startswith("strfn "):
         return "%s(%r)" % (op.split()[1], unhex(op.split()[2]))
+    if op.startswith("proxy "):
+        return op
     if op.startswith("fan "):
         f = dict(t.partition("=")[::2] for t in op.split()[1:])
         return "ClusterInfo %s topic=%s channel=%s node=%s, stubs: lookupds %s, configured nsqds %s, nsqds %s" % (
